@@ -365,12 +365,10 @@ Proof.
     + rewrite x_fmt_digits_spec by assumption. cbn [bind].
       destruct (s_fmt (arg c 0) (abs x)) as [pre digits]. apply res_ok_SL.
     + assert (arg c 0 = 0) as E0 by lia. rewrite E0.
-      unfold disp_okb in H1. apply andb_true_iff in H1. destruct H1 as [HA Hw].
-      unfold len0 in HA. rewrite Ec in HA, Hw. apply N.ltb_lt in HA. unfold A1 in HA. rewrite pow2_eq in HA.
-      rewrite Div.x_fmt_digits_display_fixed; try assumption.
-      * cbn [bind]. destruct (s_fmt 0 (abs x)) as [pre digits]. apply res_ok_SL.
-      * destruct x as [w v|v|fx v]; cbn [kind_of XEdit.kind_ok]; try exact I.
-        destruct Hg as [_ Hsw]. split; [exact Hsw|apply N.ltb_lt; exact Hw].
+      unfold disp_okb in H1.
+      unfold len0 in H1. rewrite Ec in H1. apply N.ltb_lt in H1. unfold A1 in H1. rewrite pow2_eq in H1.
+      rewrite Div.x_fmt_digits_display; try assumption.
+      cbn [bind]. destruct (s_fmt 0 (abs x)) as [pre digits]. apply res_ok_SL.
 Qed.
 
 Lemma master_op_32 c : c_op c = 32 -> case_okb c = true -> prop_case c (run_case c) = true.
